@@ -153,6 +153,18 @@ fn gen_c16() -> (String, Vec<Func>) {
         "let text = String::from(\"alpha beta\"); let words: Vec<&str> = text.split(' ').collect(); let map: HashMap<&str, &str> = HashMap::new(); let guard = map.guard(); map.insert(words[0], words[1], &guard); let probe = String::from(\"alpha\"); use_it(map.get(probe.as_str(), &guard)); use_it(map.pin().get(probe.as_str()).copied()); let set: HashSet<&str> = HashSet::new(); set.pin().insert(words[0]); use_it(set.pin().contains(probe.as_str()));".into(),
         None,
     );
+    // the converse clause across the whole API: nothing may demand 'static keys, values or lookup keys
+    let ns = "let text = String::from(\"alpha beta gamma\"); let words: Vec<&str> = text.split(' ').collect(); let map: HashMap<&str, &str> = HashMap::new(); let guard = map.guard();";
+    let non_static: Vec<(&str, String)> = vec![
+        ("updates", format!("{ns} map.insert(words[0], words[1], &guard); use_it(map.try_insert(words[1], words[2], &guard).is_ok()); use_it(map.compute_if_present(words[0], |_, v| Some(*v), &guard)); use_it(map.remove_entry(words[0], &guard)); use_it(map.remove(words[1], &guard)); map.retain(|k, _| k.len() > 1, &guard); map.retain_force(|_, v| v.len() > 1, &guard); map.reserve(3, &guard); map.clear(&guard);")),
+        ("reference wrappers", format!("{ns} let r = map.pin(); r.insert(words[0], words[1]); use_it(r.get(words[0])); use_it(r.get_key_value(words[0])); use_it(r.contains_key(words[1])); use_it(r.try_insert(words[1], words[2]).is_ok()); use_it(r.compute_if_present(words[0], |_, v| Some(*v))); use_it(r.remove_entry(words[0])); r.retain(|_, _| true); use_it(r.iter().count()); use_it(r.keys().count()); use_it(r.values().count()); let w = map.with_guard(&guard); use_it(w.get(words[2]));")),
+        ("bulk traits", format!("{ns} let pairs: Vec<(&str, &str)> = vec![(words[0], words[1]), (words[1], words[2])]; (&map).extend(pairs.clone()); (&map).extend(pairs.iter().map(|(k, v)| (k, v))); let c1: HashMap<&str, &str> = pairs.clone().into_iter().collect(); let c2: HashMap<&str, &str> = pairs.iter().collect(); let c3: HashMap<&str, &str> = pairs.iter().map(|(k, v)| (k, v)).collect(); let c4 = c1.clone(); use_it(c1 == c4); use_it(c2 == c3); use_it(format!(\"{{:?}}\", c4)); use_it(map.pin() == c4.pin());")),
+        ("sets", format!("{ns} let set: HashSet<&str> = HashSet::new(); let g = set.guard(); use_it(set.insert(words[0], &g)); use_it(set.contains(words[0], &g)); use_it(set.get(words[0], &g)); use_it(set.take(words[0], &g)); use_it(set.remove(words[1], &g)); set.retain(|k| k.len() > 2, &g); (&set).extend(words.clone()); (&set).extend(words.iter()); let s2: HashSet<&str> = words.iter().copied().collect(); let s3: HashSet<&str> = words.iter().collect(); use_it(set.is_subset(&s2, &g, &s2.guard())); use_it(s2 == s3); use_it(s2.clone().len()); use_it(format!(\"{{:?}}\", s3)); use_it(set.pin().iter().count());")),
+        ("serde and rayon", format!("{ns} map.insert(words[0], words[1], &guard); use_it(serde_json::to_string(&map).is_ok()); use_it(serde_json::to_string(&map.pin()).is_ok()); let back: HashMap<&str, u32> = serde_json::from_str(\"{{}}\").unwrap(); use_it(back.len()); let set: HashSet<&str> = HashSet::new(); use_it(serde_json::to_string(&set).is_ok()); {{ use rayon::prelude::*; let pairs: Vec<(&str, &str)> = vec![(words[0], words[1])]; (&map).par_extend(pairs.clone().into_par_iter()); let pm: HashMap<&str, &str> = pairs.into_par_iter().collect(); use_it(pm.len()); (&set).par_extend(words.clone().into_par_iter()); let ps: HashSet<&str> = words.clone().into_par_iter().collect(); use_it(ps.len()); }}")),
+    ];
+    for (what, body) in non_static {
+        add(&mut fs, false, ("non-'static K, V, Q", what), body, None);
+    }
     add(
         &mut fs,
         false,
@@ -332,7 +344,7 @@ fn compile(which: &str, src: &str) -> Result<Vec<Diag>, String> {
     std::fs::create_dir_all(dir.join(".cargo")).map_err(|e| e.to_string())?;
     std::fs::write(
         dir.join("Cargo.toml"),
-        format!("[package]\nname = \"typeprobe_{}\"\nversion = \"0.0.0\"\nedition = \"2021\"\npublish = false\n\n[dependencies]\nflurry = {{ path = \"/repo\", features = [\"serde\", \"rayon\"] }}\nseize = \"0.3.3\"\nserde = {{ version = \"1\", features = [\"derive\"] }}\nrayon = \"1\"\n\n[workspace]\n", which),
+        format!("[package]\nname = \"typeprobe_{}\"\nversion = \"0.0.0\"\nedition = \"2021\"\npublish = false\n\n[dependencies]\nflurry = {{ path = \"/repo\", features = [\"serde\", \"rayon\"] }}\nseize = \"0.3.3\"\nserde = {{ version = \"1\", features = [\"derive\"] }}\nrayon = \"1\"\nserde_json = \"1\"\n\n[workspace]\n", which),
     )
     .map_err(|e| e.to_string())?;
     std::fs::write(dir.join(".cargo/config.toml"), "[build]\nrustflags = [\"--cfg\", \"flurry_verif\"]\n\n[net]\noffline = true\n").map_err(|e| e.to_string())?;
